@@ -4,11 +4,14 @@
    C03; the stale lock half is C13.  For the rerun: [rerun_accepts_no_truncated_file]
    — from ANY filesystem a crash may have left, every file a stage reports
    obtained is complete with its declared size in the stage's final state.
-   That the whole tree then equals the uninterrupted mirror is validated by the
-   crash-injection correspondence, not proved (see DESIGN.md). *)
+   [rerun_reaches_the_uninterrupted_pool]: the pool the next successful run
+   leaves (stage + cleaning) is, path by path and size by size, the pool an
+   uninterrupted run leaves, whatever the crash left behind.  That the dists
+   half then equals the uninterrupted mirror is the publish model of C03 plus
+   the crash-injection correspondence (see DESIGN.md). *)
 From Coq Require Import List Arith Bool.
-From AM.Model Require Import Base Publish Lock Download Stage.
-From AM.Lemmas Require Import PublishLemmas LockLemmas DownloadLemmas StageRunLemmas.
+From AM.Model Require Import Base Publish Lock Download Stage Converge.
+From AM.Lemmas Require Import PublishLemmas LockLemmas DownloadLemmas StageRunLemmas ConvergeLemmas.
 Import ListNotations.
 
 Theorem crash_state_visible :
@@ -54,3 +57,16 @@ Theorem rerun_accepts_no_truncated_file :
   forall f r, In (f, r) (combine files rs) -> complete_in f r fs'.
 Proof. exact stage_sound. Qed.
 Print Assumptions rerun_accepts_no_truncated_file.
+
+(* The rerun after a crash: [crashed] is ANY filesystem the killed process may
+   have left (truncated pool files, files of removed packages, nothing at all),
+   [clean] the filesystem an uninterrupted history would have had.  If the pool
+   stage of the next run counts nothing in both, then after cleaning both pools
+   are the same: every declared path at its declared size, nothing else. *)
+Theorem rerun_reaches_the_uninterrupted_pool :
+  forall u files crashed clean t_rerun t_uninterrupted,
+  disjoint_files files -> forallb required_pool_file files = true ->
+  pool_run files u crashed = (true, t_rerun) -> pool_run files u clean = (true, t_uninterrupted) ->
+  forall p, sizes t_rerun p = sizes t_uninterrupted p /\ sizes t_rerun p = declared files p.
+Proof. exact rerun_pool_lemma. Qed.
+Print Assumptions rerun_reaches_the_uninterrupted_pool.
